@@ -98,6 +98,14 @@ class S3LockProviderBase(LockProvider):
         self._etag: Optional[str] = None
         self._state_lock = threading.Lock()
 
+    def _owns(self, content: str) -> bool:
+        """Whether lock-object content names this instance as the owner.
+
+        The content is the owner's lock_id, optionally followed by ':<renewal
+        counter>' (see S3LockProvider._renew_once).
+        """
+        return content == self.lock_id or content.startswith(self.lock_id + ":")
+
     def acquire(self) -> bool:
         start_time = time.time()
         while True:
@@ -144,7 +152,7 @@ class S3LockProviderBase(LockProvider):
             try:
                 resp = self.s3.get_object(Bucket=self.bucket, Key=self.key)
                 content = resp['Body'].read().decode('utf-8')
-                if content != self.lock_id:
+                if not self._owns(content):
                     self.is_locked = False
                     return False
                 return True
@@ -206,7 +214,7 @@ class S3LockProviderBase(LockProvider):
             resp = self.s3.get_object(Bucket=self.bucket, Key=self.key)
             content = resp['Body'].read().decode('utf-8')
 
-            if content == self.lock_id:
+            if self._owns(content):
                 self.s3.delete_object(Bucket=self.bucket, Key=self.key)
             else:
                 logger.warning(f"Skipping release of S3 lock at {self.key}: Lock owner changed (expected {self.lock_id}, got {content})")
@@ -315,11 +323,17 @@ class S3LockProvider(S3LockProviderBase):
         if etag is None:
             return
 
+        # A renewal must CHANGE the object's bytes: the ETag of a plain PUT is a
+        # hash of the body, so re-writing the bare lock_id left the ETag as it
+        # was, and a breaker that had seen the lease lapsed at its HEAD could not
+        # notice - through If-Match - a renewal landing before its takeover PUT.
+        self._renewals = getattr(self, "_renewals", 0) + 1
+        body = f"{self.lock_id}:{self._renewals}"
         try:
             resp = self.s3.put_object(
                 Bucket=self.bucket,
                 Key=self.key,
-                Body=self.lock_id.encode('utf-8'),
+                Body=body.encode('utf-8'),
                 IfMatch=etag,
             )
             with self._state_lock:
